@@ -22,6 +22,10 @@ inductive Res (α : Type)
   | panic
 deriving Repr, DecidableEq
 
+def Res.isOk {α : Type} : Res α → Bool
+  | .ok _ => true
+  | _ => false
+
 /-- one response as the client sees it: `body = none` when the JSON decoding into the endpoint's struct fails -/
 structure Rsp (β : Type) where
   status : Nat
@@ -138,6 +142,9 @@ def addChainFinal (P : Prims) (verifier : Option Key) (keyID : Option Bytes) (le
             | .err => .rspErr status
             | .panic => .panic
 
+/-- PostAndParseWithRetry sends the request again after these statuses (regenerated set) -/
+def retried (status : Nat) : Bool := Gen.postRetryStatuses.contains status
+
 /-- LogClient.AddChain / AddPreChain against the responses the server gives to the successive attempts
 (PostAndParseWithRetry: a 200 that does not decode and the statuses of `Gen.postRetryStatuses` are retried;
 an exhausted list = the context ended) -/
@@ -148,7 +155,7 @@ def addChain (P : Prims) (verifier : Option Key) (keyID : Option Bytes) (leaf : 
       match r.body with
       | none => addChain P verifier keyID leaf rest
       | some b => addChainFinal P verifier keyID leaf r.status b
-    else if Gen.postRetryStatuses.contains r.status then addChain P verifier keyID leaf rest
+    else if retried r.status then addChain P verifier keyID leaf rest
     else .rspErr r.status
 
 /-! ### plain GET methods: get-sth-consistency, get-proof-by-hash, get-entry-and-proof, get-entries (raw), get-roots -/
